@@ -533,7 +533,7 @@ theorem c02x_noise_core {l : Level} {T : Array NTTTables} (hm : MulOK l T) {a b 
         a.polys.size b.polys.size Va Vb := by
   have hn0 : 0 < l.n := c01q_n_pos hm.lwf
   have hQ := hm.tool.qwf.prod_pos
-  obtain ⟨r', hr', hsz, -, -, hcanr, -⟩ := bfvMultiply_ok hm ha hb hna hnb h1 h2
+  obtain ⟨r', hr', hsz, -, -, hcanr, -⟩ := bfvMultiply_ok hm ha hb hna hnb h1 h2 (bfvMultiply_ok_size hr)
   rw [hr] at hr'
   obtain rfl := Except.ok.inj hr'
   obtain ⟨D, E, hD, hE, hid⟩ := c02x_mul_coeff hm ha hb hna hnb h1 h2 hwin hr (fun i => sk.getD i 0)
@@ -668,7 +668,7 @@ theorem c02x_decode_core {l : Level} {T : Array NTTTables} (hm : MulOK l T) (ht 
       = Spec.negMul (Spec.bfvDecode l.t.value l.tool.baseQ.prod (Spec.phase (c01p_qvals l) l.n sk a.polys.toList))
           (Spec.bfvDecode l.t.value l.tool.baseQ.prod (Spec.phase (c01p_qvals l) l.n sk b.polys.toList)) l.t.value := by
   have hQ := hm.tool.qwf.prod_pos
-  obtain ⟨r', hr', hsz, -, -, hcanr, -⟩ := bfvMultiply_ok hm ha hb hna hnb h1 h2
+  obtain ⟨r', hr', hsz, -, -, hcanr, -⟩ := bfvMultiply_ok hm ha hb hna hnb h1 h2 (bfvMultiply_ok_size hr)
   rw [hr] at hr'
   obtain rfl := Except.ok.inj hr'
   have hsa := c02x_phase_size hm sk h1 ha
@@ -736,7 +736,7 @@ theorem c02x_decrypt_core {l : Level} {T : Array NTTTables} (hm : MulOK l T) (hd
   have hQ := hm.tool.qwf.prod_pos
   have hK : 0 < l.size := by rw [← c02w_base_size hm]; exact hm.tool.qwf.pos
   have hFlt := c02x_F_lt_of_gamma hK hQ hF
-  obtain ⟨r', hr', hsz, hntt, -, hcanr, -⟩ := bfvMultiply_ok hm ha hb hna hnb h1 h2
+  obtain ⟨r', hr', hsz, hntt, -, hcanr, -⟩ := bfvMultiply_ok hm ha hb hna hnb h1 h2 (bfvMultiply_ok_size hr)
   rw [hr] at hr'
   obtain rfl := Except.ok.inj hr'
   have hre : r = ⟨r.polys, false, r.cf⟩ := by
@@ -1130,7 +1130,7 @@ theorem bfvMultiply_noise_2x2 {l : Level} {T : Array NTTTables} (hm : MulOK l T)
         l.n * ((2 * l.t.value * ((2^32 + 2 * l.size) * (1 + S)) + 2^33) * Vb
              + (2 * l.t.value * ((2^32 + 2 * l.size) * (1 + S)) + 2^33) * Va)
           + 2^33 * l.n * Vb + 2 * 2^33 * l.t.value * (l.size * (1 + S + S^2)) := by
-  obtain ⟨r', hr', hsz, -⟩ := bfvMultiply_ok hm ha hb hna hnb (by omega) (by omega)
+  obtain ⟨r', hr', hsz, -⟩ := bfvMultiply_ok hm ha hb hna hnb (by omega) (by omega) (bfvMultiply_ok_size hr)
   rw [hr] at hr'
   obtain rfl := Except.ok.inj hr'
   refine ⟨by rw [hsz, h1, h2], ?_⟩
@@ -1205,7 +1205,7 @@ theorem bfvMultiply_budget {l : Level} {T : Array NTTTables} (hm : MulOK l T) {a
         (bitCount (Spec.prodL (c01p_qvals l)) - 2)
       ≤ Spec.budget true l.t.value (Spec.prodL (c01p_qvals l)) (Spec.phase (c01p_qvals l) l.n sk r.polys.toList) + L := by
   have hQ : 0 < Spec.prodL (c01p_qvals l) := by rw [c02x_prodL hm]; exact hm.tool.qwf.prod_pos
-  obtain ⟨r', hr', hsz, -, -, hcanr, -⟩ := bfvMultiply_ok hm ha hb hna hnb h1 h2
+  obtain ⟨r', hr', hsz, -, -, hcanr, -⟩ := bfvMultiply_ok hm ha hb hna hnb h1 h2 (bfvMultiply_ok_size hr)
   rw [hr] at hr'
   obtain rfl := Except.ok.inj hr'
   have hsr := c02x_phase_size hm sk (by rw [hsz]; omega) (fun k hk => hcanr k (by rw [← hsz]; exact hk))
@@ -1499,7 +1499,7 @@ theorem bfvMultiply_budget_split {l : Level} {T : Array NTTTables} (hm : MulOK l
     bitCount (Spec.prodL (c01p_qvals l))
       ≤ Spec.budget true l.t.value (Spec.prodL (c01p_qvals l)) (Spec.phase (c01p_qvals l) l.n sk r.polys.toList) + L2 + 3 := by
   have hQ : 0 < Spec.prodL (c01p_qvals l) := by rw [c02x_prodL hm]; exact hm.tool.qwf.prod_pos
-  obtain ⟨r', hr', hsz, -, -, hcanr, -⟩ := bfvMultiply_ok hm ha hb hna hnb h1 h2
+  obtain ⟨r', hr', hsz, -, -, hcanr, -⟩ := bfvMultiply_ok hm ha hb hna hnb h1 h2 (bfvMultiply_ok_size hr)
   rw [hr] at hr'
   obtain rfl := Except.ok.inj hr'
   have hsr := c02x_phase_size hm sk (by rw [hsz]; omega) (fun k hk => hcanr k (by rw [← hsz]; exact hk))
@@ -1638,14 +1638,14 @@ theorem bfvMultiply_noiseLe {l : Level} {T : Array NTTTables} (hm : MulOK l T) {
   rw [Nat.le_div_iff_mul_le (by positivity)]
   rw [Nat.mul_comm]; exact e3
 
-/-- why X3 needs `n_a + n_b ≥ 3`: the product of two single-polynomial operands succeeds (size 1) and decryption REFUSES it -/
-theorem bfvDecrypt_bfvMultiply_refuses_1x1 {l : Level} {T : Array NTTTables} (hm : MulOK l T) {a b : Ct}
-    (ha : ∀ k, k < a.polys.size → RnsCanon l (a.polys.getD k #[]))
-    (hb : ∀ k, k < b.polys.size → RnsCanon l (b.polys.getD k #[]))
-    (hna : a.ntt = false) (hnb : b.ntt = false) (h1 : a.polys.size = 1) (h2 : b.polys.size = 1) (sk : Array Int) :
-    ∃ r, bfvMultiply l T a b = .ok r ∧ bfvDecrypt l sk r = .error .refused := by
-  obtain ⟨r, hr, hsz, -⟩ := bfvMultiply_ok hm ha hb hna hnb (by omega) (by omega)
-  exact ⟨r, hr, bfvDecrypt_refuses_small l sk r (by rw [hsz, h1, h2]; omega)⟩
+/-- why X3 needs `n_a + n_b ≥ 3`: the product of two single-polynomial operands would have size 1, which `resize` refuses (as in
+    the code: `[Invalid argument] Size invalid.`), so nothing reaches decryption — for every level and all operands -/
+theorem bfvDecrypt_bfvMultiply_refuses_1x1 (l : Level) (T : Array NTTTables) (a b : Ct)
+    (h1 : a.polys.size = 1) (h2 : b.polys.size = 1) (sk : Array Int) :
+    bfvMultiply l T a b = .error .refused ∧ (bfvMultiply l T a b >>= bfvDecrypt l sk) = .error .refused := by
+  have h : bfvMultiply l T a b = .error .refused :=
+    bfvMultiply_refuse_size l T a b (by rw [h1, h2, ctResizeRefuses_eq_true_iff]; omega)
+  exact ⟨h, by rw [h]; rfl⟩
 
 /-- refusal: operands in NTT form never reach decryption -/
 theorem bfvDecrypt_bfvMultiply_refuses_ntt (l : Level) (T : Array NTTTables) (a b : Ct) (sk : Array Int)
